@@ -155,6 +155,8 @@ class Program:
                 tref = X.resolve_type(self.spec, ins.type, ins.length if ins.type.split(":")[0] in ("string", "encoded_string") else None)
                 types_[ins.name] = tref
                 if ins.value is not None:
+                    # a named hard-coded field is still a (ignored) keyword-only constructor argument
+                    kwargs[ins.name] = C.lit_value(tref, ins.value)
                     continue
                 if ins.optional:
                     if missing or not (want_all_optional or rng.random() < 0.5):
